@@ -48,6 +48,13 @@ Section C12.
     last (run_cached re_match re_replace ip_allow ideal sv [] (h1 ++ [(keep1, rq)])%list) Panicked =
     last (run_cached re_match re_replace ip_allow ideal sv [] (h2 ++ [(keep2, rq)])%list) Panicked.
   Proof. exact (no_cross_request_influence re_match re_replace ip_allow). Qed.
+  (** transparency over histories with reloads: requests interleaved with [OReload sv'] steps
+      (identical spec, changed options/filters, different rules - any [sv']), arbitrary
+      eviction before every request: the cached server answers like the cache-less twin that
+      is reloaded at the same points *)
+  Theorem C12_transparent_across_reloads : forall sv (ops : list op),
+    run_ops re_match re_replace ip_allow ideal sv [] ops = ref_ops re_match re_replace ip_allow sv ops.
+  Proof. exact (transparent_ops re_match re_replace ip_allow). Qed.
 End C12.
 
 (** each defect flag of the unchanged code, switched on alone, breaks transparency on a
@@ -97,6 +104,7 @@ Print Assumptions C12_cache_sound_invariant.
 Print Assumptions C12_hit_equals_miss.
 Print Assumptions C12_transparent.
 Print Assumptions C12_no_cross_request_influence.
+Print Assumptions C12_transparent_across_reloads.
 Print Assumptions C12_refuted_q_cache_key_concat.
 Print Assumptions C12_refuted_q_cache_headerless_after_header.
 Print Assumptions C12_refuted_q_cache_status_before_ipfilter.
